@@ -23,5 +23,5 @@ if [ ! -f "$B/build.ninja" ] || ! grep -q "CMAKE_HOME_DIRECTORY:INTERNAL=$REPO\$
     -DBUILD_TESTING=OFF -DBUILD_GEOSOP=OFF -DBUILD_BENCHMARKS=OFF -DBUILD_DOCUMENTATION=OFF \
     -DCMAKE_EXPORT_COMPILE_COMMANDS=ON -DGEOS_BUILD_DEVELOPER=OFF >"$B.configure.log" 2>&1 || { cat "$B.configure.log"; exit 3; }
 fi
-ninja -C "$B" geos geos_c >"$B.build.log" 2>&1 || { tail -50 "$B.build.log"; exit 4; }
+ninja -l 24 -C "$B" geos geos_c >"$B.build.log" 2>&1 || { tail -50 "$B.build.log"; exit 4; }
 echo "built $FL: $B"
